@@ -483,49 +483,44 @@ def run(ctx):
     # ------------------------------------------------------------------ R4
     te = repo.mod(TETCI)
     wq = te.func("w_withquaternion")
-    tri = {}
-    k = 0
-    for b in range(4):
-        for a in range(b + 1):
-            tri[(a, b)] = k
-            k += 1
+    # the routine is interpreted (sa.rotint.interpret_w, abstract interpretation over symbolic arrays) on one heavy-heavy, one heavy-H and one H-H pair:
+    # whatever the spelling of the stores, e1b[pair, a, b] must be -Z_j (ab|ss) and e2a[pair, a, b] must be -Z_i (ss|ab) of the *same* rotated integrals
+    from .. import rotint
+    ri_ = [sp.Symbol(f"ri{k}") for k in range(22)]
+    rx_ = [sp.Symbol(f"rx{k}") for k in range(4)]
+    R_ = [[sp.Symbol(f"R{a}{b}") for b in range(3)] for a in range(3)]
+    RX_ = [[sp.Symbol(f"X{a}{b}") for b in range(3)] for a in range(3)]
+    iw = rotint.interpret_w(repo, ri_, rx_, R_, RX_)
+    ZX, ZH = iw["Z"]
+    tore_ = iw["tore"]
+    pk = lambda a, b: b * (b + 1) // 2 + a
     n_e = 0
-    for st in ast.walk(wq):
-        if not (isinstance(st, ast.Assign) and isinstance(st.targets[0], ast.Subscript) and isinstance(st.targets[0].value, ast.Name) and st.targets[0].value.id in ("e1b", "e2a")):
-            continue
-        tgt = st.targets[0]
-        which = tgt.value.id
-        sl = tgt.slice.elts if isinstance(tgt.slice, ast.Tuple) else [tgt.slice]
-        if len(sl) != 3 or not all(isinstance(x, ast.Constant) for x in sl[1:]):
-            ctx.fail("R4", te, st, "w_withquaternion", st, f"store into {which} is not of the form {which}[class, a, b] = ...")
-            continue
-        cls = norm(sl[0])
-        a, b = sl[1].value, sl[2].value
-        n_e += 1
-        v = st.value
-        okv = isinstance(v, ast.BinOp) and isinstance(v.op, ast.Mult) and isinstance(v.left, ast.UnaryOp) and isinstance(v.left.op, ast.USub)
-        if not okv:
-            ctx.fail("R4", te, st, "w_withquaternion", st, f"{which}[{cls},{a},{b}] = {short(norm(v))} is not -Z * integral")
-            continue
-        z = norm(v.left.operand).replace(" ", "")
-        integ = v.right
-        partner = "nj" if which == "e1b" else "ni"
-        want_z = {"HH": {"tore[1]"}, "XH": {f"tore[{partner}[XH]]"}, "XX": {f"tore[{partner}[XX]]"}}.get(cls, set())
-        ctx.check(z in want_z, "R4", te, st, "w_withquaternion", f"{which}[{cls},{a},{b}] charge", f"{which}[{cls},{a},{b}] is weighted by the partner's core charge {z}",
-                  f"{which}[{cls},{a},{b}] uses charge `{z}` but the attracting nucleus is atom {partner[1]} ({sorted(want_z)}): core-electron attraction no longer "
-                  f"balances the electron-electron and core-core monopoles at long range")
-        it = norm(integ).replace(" ", "")
-        kk = tri.get((min(a, b), max(a, b)))
-        if cls == "HH":
-            want_i = {"wHH"} if (a, b) == (0, 0) else set()
-        elif cls == "XH":
-            want_i = {f"wXH[:,{kk}]"} if which == "e1b" else ({"wXH[:,0]"} if (a, b) == (0, 0) else set())
-        else:
-            want_i = {f"w_[:,{kk},0]"} if which == "e1b" else {f"w_[:,0,{kk}]"}
-        ctx.check(it in want_i, "R4", te, st, "w_withquaternion", f"{which}[{cls},{a},{b}] integral", f"{which}[{cls},{a},{b}] = -Z * {it} = (mu nu|ss) of the same rotated w",
-                  f"{which}[{cls},{a},{b}] uses integral `{it}` instead of {sorted(want_i)}: the (mu nu|ss_partner) element of the rotated two-electron block")
-    if n_e < 33:
-        raise AnalysisError(f"w_withquaternion: only {n_e} e1b/e2a stores recognised")
+    for p_, cls in ((0, "XX"), (1, "XH"), (2, "HH")):
+        zi, zj = int(iw["ni"][p_]), int(iw["nj"][p_])
+        for a in range(4):
+            for b in range(4):
+                if a > b:
+                    want1 = want2 = sp.Integer(0)
+                elif cls == "XX":
+                    want1, want2 = -tore_[zj] * iw["w"][pk(a, b) * 10], -tore_[zi] * iw["w"][pk(a, b)]
+                elif cls == "XH":
+                    want1 = -tore_[zj] * iw["wXH"][pk(a, b)]
+                    want2 = -tore_[zi] * iw["wXH"][0] if (a, b) == (0, 0) else sp.Integer(0)
+                else:
+                    want1 = -tore_[zj] * iw["wHH"] if (a, b) == (0, 0) else sp.Integer(0)
+                    want2 = -tore_[zi] * iw["wHH"] if (a, b) == (0, 0) else sp.Integer(0)
+                for which, got, want, partner in (("e1b", iw["e1b"][p_, a, b], want1, "j"), ("e2a", iw["e2a"][p_, a, b], want2, "i")):
+                    n_e += 1
+                    ok_ = sp.expand(sp.sympify(got) - want) == 0
+                    if a > b and ok_:
+                        continue
+                    ctx.check(ok_, "R4", te, wq, "w_withquaternion", f"{which}[{cls},{a},{b}]",
+                              f"{which}[{cls},{a},{b}] = -Z_{partner} x ({'ab|ss' if which == 'e1b' else 'ss|ab'}) of the same rotated two-electron block (abstract interpretation of the routine)",
+                              f"{which}[{cls},{a},{b}] is not -Z_{partner} times the ({'ab|ss' if which == 'e1b' else 'ss|ab'}) element of the rotated two-electron block of this pair "
+                              f"(got `{str(got)[:90]}`): core-electron attraction no longer balances the electron-electron and core-core monopoles at long range")
+    ctx.check(iw["frame_vector_is_minus_xij"], "R4", te, wq, "w_withquaternion", "frame vector", "the frame is built from -xij", "the frame is not built from -xij")
+    if n_e < 90:
+        raise AnalysisError(f"w_withquaternion: only {n_e} e1b/e2a elements compared")
 
     # gamma_ss at the call sites of pair_nuclear_energy
     for rel in (BASICS, "seqm/dynamics/xlbomd.py", "seqm/XLBOMD.py"):
@@ -576,7 +571,7 @@ def run(ctx):
         ctx.check(lim == 0, "R4", en, pne, "pair_nuclear_energy", f"{method}, XH={xh}: corrections",
                   f"{method}, X-H={xh}: E_nuc - Z_i Z_j gamma = o(r^-6) (exponential / Gaussian corrections)",
                   f"{method}, X-H={xh}: the core-core correction terms decay like r^6 * resid -> {lim}; a long-range tail is added to the interaction of neutral fragments")
-    ctx.floor("R4", 33 * 2 + 2 + 12)
+    ctx.floor("R4", 60 + 1 + 2 + 12)
     # ------------------------------------------------------------------ R5
     bas = repo.mod(BASICS)
     keepers = []
